@@ -8,6 +8,7 @@ VIEW View
 INVARIANT TypeOK
 INVARIANT NoCounterWithoutRule
 INVARIANT ScanIsLowestMatch
+INVARIANT ScanVerdictIsVerdict
 INVARIANT DeciderIsLowestMatch
 PROPERTY VerdictProp
 PROPERTY AddProp
